@@ -29,7 +29,7 @@ OTHER_FN = "a = 0.5*a + fn(3)\nb = a + y\ny = 2\nx = 7\nMaxTime = 2"
 OTHER = "a = 0.5*a + 3\nb = a + y\ny = 2\nx = 7\nMaxTime = 2"
 OTHER_LONG = "a = 0.5*a + 3\nb = a + y\ny = 2\nx = 7\nMaxTime = 4"       # previous block with a longer / shorter horizon than the target block
 OTHER_SHORT = "a = 0.5*a + 3\nb = a + y\ny = 2\nx = 7\nMaxTime = 1"
-OPS = ['other-model', 'other-solver', 'logs-on', 'logs-off', 'trace', 're-solve', 're-parse', 're-parse-longer-horizon', 're-parse-shorter-horizon', 'solver-between-parse-and-solve', 'target-first']
+OPS = ['other-model', 'other-solver', 'logs-on', 'logs-off', 'trace', 're-solve', 're-parse', 're-parse-longer-horizon', 're-parse-shorter-horizon', 're-parse-after-diagnosed-block', 'solver-between-parse-and-solve', 'target-first']
 MID = "x = 0.25*LX + 9\nd = x - 1\nLX = x(k-1)\nG = 3\nMaxTime = 2"      # same variable names as the target blocks, other equations
 
 
@@ -120,6 +120,18 @@ def history_case(item):
                 # the solver object was used for another block before it is given the target block
                 es.ParseString({'re-parse': OTHER, 're-parse-longer-horizon': OTHER_LONG, 're-parse-shorter-horizon': OTHER_SHORT}[op])
                 es.SolveEquation()
+            elif op == 're-parse-after-diagnosed-block':
+                # the earlier block was solved with step tracing and the steady-state search on; both are switched off again before the target block
+                es.TraceStep = 1
+                es.ParameterSolveInitialSteadyState = True
+                es.ParameterInitialSteadyStateMaxTime = 3
+                es.ParseString(OTHER)
+                try:
+                    es.SolveEquation()
+                except ValueError:
+                    pass
+                es.TraceStep = None
+                es.ParameterSolveInitialSteadyState = False
             elif op == 'target-first':
                 pass
         es.ParseString(TARGET)
@@ -149,6 +161,12 @@ def history_case(item):
         out['solved'] += 1
         want_vars = set(ref.TimeSeries.keys())
         got_vars = set(es.TimeSeries.keys())
+        if tname != 'steady-state-init' and 'trace' not in hist:
+            # the diagnostic series groups (step trace, steady-state search) belong to the block too: no variable of an earlier block in them
+            aux = (set(es.TimeSeriesStepTrace.keys()) | set(es.TimeSeriesInitialSteadyState.keys())) - {'iteration', 'iteration_error', 'iteration_abs_change'}
+            if not aux <= want_vars and out['viol'] is None:
+                out['viol'] = {'why': 'the step-trace / steady-state groups still hold variables of the previous block: %r' % (sorted(aux - want_vars),), 'vals': {'g1': '1', 'g2': '2', 'x0': '3'}}
+                return 'solved'
         if got_vars != want_vars:
             if out['viol'] is None:
                 out['viol'] = {'why': 'reported variables %r, the block defines %r' % (sorted(got_vars), sorted(want_vars)), 'vals': {'g1': '1', 'g2': '2', 'x0': '3'}}
@@ -226,6 +244,11 @@ for op in hist:
     elif op == 'logs-off': Logger.cleanup()
     elif op == 'trace': es.TraceStep = 1
     elif op == 're-solve': resolve = True
+    elif op == 're-parse-after-diagnosed-block':
+        es.TraceStep = 1; es.ParameterSolveInitialSteadyState = True; es.ParameterInitialSteadyStateMaxTime = 3; es.ParseString(OTHER)
+        try: es.SolveEquation()
+        except ValueError: pass
+        es.TraceStep = None; es.ParameterSolveInitialSteadyState = False
     elif op.startswith('re-parse'): es.ParseString({'re-parse': OTHER, 're-parse-longer-horizon': OTHER_LONG, 're-parse-shorter-horizon': OTHER_SHORT}[op]); es.SolveEquation()
 try:
     es.ParseString(TARGET)
@@ -243,7 +266,10 @@ for f_, o_ in FUNCS.items(): ref.AddFunction(f_, o_)
 run(ref)
 a = {v: list(es.TimeSeries[v]) for v in es.TimeSeries}; b = {v: list(ref.TimeSeries[v]) for v in ref.TimeSeries}
 print('after history %%r:' %% (hist,), a); print('history-free      :', b)
-sys.exit(1 if a != b else 0)
+aux = (set(es.TimeSeriesStepTrace.keys()) | set(es.TimeSeriesInitialSteadyState.keys())) - {'iteration', 'iteration_error', 'iteration_abs_change'}
+remnants = sorted(aux - set(b)) if (%(tname)r != 'steady-state-init' and 'trace' not in hist) else []
+if remnants: print('diagnostic series groups still hold variables of the previous block:', remnants)
+sys.exit(1 if (a != b or remnants) else 0)
 '''
 
 
